@@ -45,7 +45,10 @@ struct Node {
     Name subj, issuerName;
     int version = 3;
     Bytes serial;
-    int64_t nb = -30 * DAY, na = 365 * DAY;   // offsets relative to NOW
+    int64_t nb = -30 * DAY, na = 365 * DAY;   // offsets relative to the case's "now" = what the encoded dates MEAN per RFC 5280
+    int nbEnc = mint::T_AUTO, naEnc = mint::T_AUTO;     // forced encodings (c03_dates): the characters below are emitted verbatim
+    std::string nbStr, naStr;
+    bool dateUnusual = false;   // legal but not RFC 5280-conformant / outside MatrixSSL's documented range: completeness not asserted
     int bc = mint::BC_ABSENT; bool bcCrit = false; int pathLen = -1;
     int ku = -1; bool kuCrit = false;
     int eku = 0; bool ekuCrit = false;        // 0 absent, else mint::EKU_*
@@ -63,7 +66,8 @@ struct Crl {
     Name issuer;               // issuer name of the CRL
     int signKey = 0;
     bool sigBad = false;       // signature corrupted after signing
-    int64_t next = 7 * DAY;    // nextUpdate offset
+    int64_t next = 7 * DAY;    // nextUpdate offset (meaning per RFC 5280)
+    int nextEnc = mint::T_AUTO; std::string nextStr;
     std::vector<int> revokedNodes;   // nodes whose serial is listed
     int extraSerials = 0;
     mint::Hash hash = mint::H_SHA256;
@@ -84,6 +88,7 @@ struct Case {
     std::string kind = "general", shape = "inorder", anchorKind = "root";
     int mainDepth = 0;
     bool revalidateDates = false, reorderFirst = false;
+    int64_t now = NOW;          // virtual wall clock of this case (c03_dates moves it to calendar boundaries)
     // ---- history mode (c03_crl_history): several validations against one trust store and one CRL cache
     bool history = false;
     bool appTriesPathCAs = false;        // when loading a CRL the application also tries the genuine CA certificates it knows
@@ -105,6 +110,58 @@ static inline DateState date_state(const Node &x)
     if (x.na < -LINGER || x.nb > LINGER) return D_OUT;
     return D_GREY;     // outside the window by less than the documented linger: neither direction is asserted
 }
+
+// ---- calendar arithmetic of the reference (proleptic Gregorian, no leap seconds), independent of libc and of MatrixSSL
+static inline int64_t days_from_civil(int64_t y, unsigned m, unsigned d)
+{
+    y -= m <= 2;
+    const int64_t era = (y >= 0 ? y : y - 399) / 400;
+    const unsigned yoe = (unsigned) (y - era * 400);
+    const unsigned doy = (153 * (m + (m > 2 ? -3 : 9)) + 2) / 5 + d - 1;
+    const unsigned doe = yoe * 365 + yoe / 4 - yoe / 100 + doy;
+    return era * 146097 + (int64_t) doe - 719468;
+}
+static inline void civil_from_epoch(int64_t t, int &y, int &mo, int &d, int &h, int &mi, int &sec)
+{
+    int64_t z = t / 86400, r = t % 86400;
+    if (r < 0) { r += 86400; z -= 1; }
+    h = (int) (r / 3600); mi = (int) (r % 3600 / 60); sec = (int) (r % 60);
+    z += 719468;
+    const int64_t era = (z >= 0 ? z : z - 146096) / 146097;
+    const unsigned doe = (unsigned) (z - era * 146097);
+    const unsigned yoe = (doe - doe / 1460 + doe / 36524 - doe / 146096) / 365;
+    int64_t yy = (int64_t) yoe + era * 400;
+    const unsigned doy = doe - (365 * yoe + yoe / 4 - yoe / 100);
+    const unsigned mp = (5 * doy + 2) / 153;
+    d = (int) (doy - (153 * mp + 2) / 5 + 1);
+    mo = (int) (mp < 10 ? mp + 3 : mp - 9);
+    y = (int) (yy + (mo <= 2));
+}
+// What a Time value MEANS (RFC 5280 4.1.2.5): UTCTime YYMMDDHHMM[SS]Z with YY >= 50 -> 19YY, YY < 50 -> 20YY;
+// GeneralizedTime YYYYMMDDHHMMSSZ.  Returns false for strings the reference does not understand.
+static inline bool rfc5280_epoch(int enc, const std::string &s, int64_t &epoch)
+{
+    size_t yl = enc == mint::T_UTC ? 2 : 4;
+    if (s.size() != yl + 11 && !(enc == mint::T_UTC && s.size() == yl + 9)) return false;
+    if (s.back() != 'Z') return false;
+    for (size_t i = 0; i + 1 < s.size(); i++) if (s[i] < '0' || s[i] > '9') return false;
+    auto num = [&](size_t at, size_t n) { int v = 0; for (size_t i = 0; i < n; i++) v = v * 10 + (s[at + i] - '0'); return v; };
+    int y = num(0, yl);
+    if (enc == mint::T_UTC) y += y >= 50 ? 1900 : 2000;
+    int mo = num(yl, 2), d = num(yl + 2, 2), h = num(yl + 4, 2), mi = num(yl + 6, 2);
+    int sec = s.size() == yl + 11 ? num(yl + 8, 2) : 0;
+    if (mo < 1 || mo > 12 || d < 1 || d > 31 || h > 23 || mi > 59 || sec > 59) return false;
+    epoch = days_from_civil(y, (unsigned) mo, (unsigned) d) * 86400 + h * 3600 + mi * 60 + sec;
+    return true;
+}
+static inline std::string time_string(int enc, int64_t epoch)
+{
+    int y, mo, d, h, mi, sec;
+    civil_from_epoch(epoch, y, mo, d, h, mi, sec);
+    if (enc == mint::T_UTC) return vf::fmt("%02d%02d%02d%02d%02d%02dZ", y % 100, mo, d, h, mi, sec);
+    return vf::fmt("%04d%02d%02d%02d%02d%02dZ", y, mo, d, h, mi, sec);
+}
+static inline int year_of(int64_t epoch) { int y, mo, d, h, mi, sec; civil_from_epoch(epoch, y, mo, d, h, mi, sec); return y; }
 
 // Does the signature on `c` verify under the public key of `iss` with an enabled algorithm?
 static inline bool sig_verifies(const Node &c, const Node &iss)
@@ -215,6 +272,7 @@ static inline bool node_strict(const Node &x)
 {
     // the certificate itself must be parseable: v3, supported key, supported signature algorithm (also on a trust anchor), no unknown critical extension
     if (x.sig == SIG_ALGMISMATCH) return false;
+    if (x.dateUnusual) return false;
     if (kkind(x.signKey) != mint::K_ED25519 && !hash_enabled(x.hash)) return false;
     return x.version == 3 && key_enabled(x.key) && date_state(x) == D_IN && x.unk != 2 && !x.serial.empty();
 }
@@ -875,22 +933,134 @@ struct Gen {
         cs.chain = cs.steps[0].chain;
     }
 
+    // ---- validity-date dimension: encodings x boundary years x position relative to "now" ------------------------------
+    struct DateLit { int enc; const char *s; bool unusual; };
+    // Give one validity bound of x a chosen encoding/instant.  x.nb / x.na always hold what the encoded characters MEAN per RFC 5280.
+    void special_date(Node &x, bool after, int pos)
+    {
+        static const DateLit lits[] = {
+            { mint::T_UTC, "490101000000Z", false }, { mint::T_UTC, "491231235959Z", false },
+            { mint::T_UTC, "500101000000Z", false }, { mint::T_UTC, "501231235959Z", false },
+            { mint::T_UTC, "510615120000Z", false }, { mint::T_UTC, "991231235959Z", false },
+            { mint::T_UTC, "000101000000Z", false }, { mint::T_UTC, "000229120000Z", false },
+            { mint::T_UTC, "700101000000Z", false }, { mint::T_UTC, "380119031408Z", false },
+            { mint::T_GEN, "19500101000000Z", true }, { mint::T_GEN, "19491231235959Z", true },
+            { mint::T_GEN, "19700101000000Z", true }, { mint::T_GEN, "20491231235959Z", true },
+            { mint::T_GEN, "20500101000000Z", false }, { mint::T_GEN, "20991231235959Z", false },
+            { mint::T_GEN, "21000228235959Z", false }, { mint::T_GEN, "99991231235959Z", false },
+            { mint::T_GEN, "29991231235959Z", false }, { mint::T_GEN, "20380119031408Z", true },
+        };
+        static const DateLit exotic[] = {
+            { mint::T_GEN, "30000101000000Z", true }, { mint::T_GEN, "99991231235958Z", true },
+            { mint::T_UTC, "2601010000Z", true }, { mint::T_GEN, "19000101000000Z", true },
+            { mint::T_GEN, "18991231235959Z", true }, { mint::T_UTC, "4912312359Z", true },
+        };
+        int enc = mint::T_AUTO; std::string str; int64_t off = 0; bool unusual = false; const char *cls;
+        unsigned cat = (unsigned) t.below(100);
+        if (cat < 45)
+        {
+            static const int64_t offs[] = { -LINGER - 1, -LINGER, -LINGER + 1, -1, 0, 1, LINGER - 1, LINGER, LINGER + 1, -3600, 3600 };
+            off = offs[t.below(11)];
+            int64_t abs = cs.now + off;
+            int y = year_of(abs);
+            unsigned e = (unsigned) t.below(4);
+            if (e == 2) enc = (y >= 1950 && y <= 2049) ? mint::T_UTC : mint::T_GEN;
+            else if (e == 3) { enc = mint::T_GEN; unusual = y < 2050; }      // GeneralizedTime before 2050: legal ASN.1, outside the RFC 5280 profile
+            if (enc != mint::T_AUTO) str = time_string(enc, abs);
+            cls = after ? "date-notafter-near-now" : "date-notbefore-near-now";
+        }
+        else
+        {
+            const DateLit &l = cat < 88 ? lits[t.below(sizeof lits / sizeof lits[0])] : exotic[t.below(sizeof exotic / sizeof exotic[0])];
+            int64_t e = 0;
+            enc = l.enc; str = l.s; unusual = l.unusual;
+            if (!rfc5280_epoch(enc, str, e)) return;
+            off = e - cs.now;
+            cls = cat < 88 ? (after ? "date-notafter-boundary-year" : "date-notbefore-boundary-year")
+                           : (after ? "date-notafter-exotic" : "date-notbefore-exotic");
+        }
+        if (after) { x.na = off; x.naEnc = enc; x.naStr = str; }
+        else { x.nb = off; x.nbEnc = enc; x.nbStr = str; }
+        if (unusual) x.dateUnusual = true;
+        note(cls, pos);
+        cs.defects.back().cls += std::string(":") + (enc == mint::T_AUTO ? "auto" : enc == mint::T_UTC ? "utc" : "gen");
+    }
+    void gen_dates()
+    {
+        cs.kind = "dates";
+        unsigned nv = (unsigned) t.below(16);
+        if (nv >= 10)
+        {
+            static const struct { int y, m, d; int64_t add; } nows[] = {
+                { 2050, 1, 1, -1 }, { 2050, 1, 1, 0 }, { 2050, 1, 2, 1 }, { 2028, 2, 29, 86399 }, { 2038, 1, 19, 11648 }, { 2100, 3, 1, 0 },
+            };
+            cs.now = days_from_civil(nows[nv - 10].y, (unsigned) nows[nv - 10].m, (unsigned) nows[nv - 10].d) * 86400 + nows[nv - 10].add;
+        }
+        unsigned dr = (unsigned) t.below(100);
+        build_universe(dr < 40 ? 0 : dr < 80 ? 1 : 2);
+        int last = mpLen() - 1;
+        cs.chain.assign(mainPath.begin(), mainPath.begin() + last);
+        if (t.chance(1, 4)) { cs.chain.push_back(mainPath[(size_t) last]); cs.shape = "root-appended"; }
+        cs.anchors = extraRoots;
+        cs.anchors.insert(cs.anchors.begin() + (long) t.below(cs.anchors.size() + 1), mainPath[(size_t) last]);
+        cs.anchorKind = cs.anchors.size() > 1 ? "root-among-others" : "root";
+        int pos = (int) t.below((uint64_t) mpLen());
+        if (pos == last && !t.chance(1, 2)) pos = (int) t.below((uint64_t) last);
+        unsigned f = (unsigned) t.below(8);
+        if (f < 4) special_date(mp(pos), true, pos);
+        else if (f < 7) special_date(mp(pos), false, pos);
+        else { special_date(mp(pos), false, pos); special_date(mp(pos), true, pos); }
+        if (t.chance(1, 5)) special_date(mp((int) t.below((uint64_t) mpLen())), t.coin(), -1);      // a second certificate
+        if (t.chance(3, 10))
+        {
+            // CRL of the leaf's issuer with a chosen nextUpdate encoding
+            Node &c = mp(0); Node &ci = mp(1);
+            Crl r; r.issuer = c.issuerName; r.signKey = ci.key; r.hash = good_hash(); r.extraSerials = (int) t.below(3); r.aki = t.coin();
+            bool lists = !t.chance(3, 10);
+            if (lists) r.revokedNodes.push_back(c.id);
+            static const DateLit nx[] = { { mint::T_GEN, "20500101000000Z", false }, { mint::T_UTC, "491231235959Z", false },
+                                          { mint::T_UTC, "500101000000Z", false }, { mint::T_GEN, "20491231235959Z", false } };
+            unsigned v = (unsigned) t.below(10);
+            const char *cls = lists ? "revoked" : "crl-clean";
+            if (v < 4)
+            {
+                int64_t e = 0;
+                r.nextEnc = nx[v].enc; r.nextStr = nx[v].s;
+                if (rfc5280_epoch(r.nextEnc, r.nextStr, e)) r.next = e - cs.now; else { r.nextEnc = mint::T_AUTO; r.nextStr.clear(); }
+                cls = lists ? "revoked:crl-next-boundary-year" : "crl-clean:crl-next-boundary-year";
+            }
+            else if (v < 7)
+            {
+                static const int64_t offs[] = { -LINGER - 1, 1, LINGER + 1 };
+                r.next = offs[v - 4];
+                cls = lists ? "revoked:crl-next-near-now" : "crl-clean:crl-next-near-now";
+            }
+            if (add_crl(r)) note(cls, 0);
+        }
+    }
+
     Case run(int forcedKind)
     {
         if (forcedKind == 4) { gen_history(); return cs; }
+        if (forcedKind == 5) { gen_dates(); finish_opts(); return cs; }
         unsigned k = (unsigned) t.below(100);
-        int kind = forcedKind >= 0 ? forcedKind : (k < 70 ? 0 : k < 80 ? 1 : k < 92 ? 2 : 3);
+        int kind = forcedKind >= 0 ? forcedKind : (k < 70 ? 0 : k < 80 ? 1 : k < 92 ? 2 : k < 96 ? 3 : 5);
         switch (kind)
         {
+        case 5: gen_dates(); break;
         case 1: gen_attacker(); break;
         case 2: gen_soft(); break;
         case 3: gen_crl(); break;
         default: gen_general(); break;
         }
+        finish_opts();
+        return cs;
+    }
+    void finish_opts()
+    {
         unsigned o = (unsigned) t.u8();
         cs.revalidateDates = (o & 3) == 3;
         cs.reorderFirst = (o & 0x1c) == 0x1c;
-        return cs;
     }
 };
 
@@ -905,6 +1075,9 @@ static inline std::string describe_node(const Node &x)
     if (x.version != 3) s += " v1";
     DateState d = date_state(x);
     if (d != D_IN) s += vf::fmt(" date=%s(nb%+lldd,na%+lldd)", d == D_OUT ? "OUT" : "GREY", (long long) (x.nb / DAY), (long long) (x.na / DAY));
+    if (x.nbEnc) s += vf::fmt(" notBefore=%s'%s'(%+llds)", x.nbEnc == mint::T_UTC ? "UTC" : "GEN", x.nbStr.c_str(), (long long) x.nb);
+    if (x.naEnc) s += vf::fmt(" notAfter=%s'%s'(%+llds)", x.naEnc == mint::T_UTC ? "UTC" : "GEN", x.naStr.c_str(), (long long) x.na);
+    if (x.dateUnusual) s += " date-unusual";
     s += x.bc == mint::BC_TRUE ? " CA" : x.bc == mint::BC_FALSE ? " bc=false" : "";
     if (x.pathLen >= 0) s += vf::fmt(" pl=%d", x.pathLen);
     if (x.ku >= 0) s += vf::fmt(" ku=%02x", x.ku);
@@ -917,7 +1090,9 @@ static inline std::string describe_node(const Node &x)
 }
 static inline std::string describe(const Case &cs)
 {
-    std::string s = cs.kind + " shape=" + cs.shape + " anchors=" + cs.anchorKind + " chain=[";
+    std::string s = cs.kind + " shape=" + cs.shape + " anchors=" + cs.anchorKind;
+    if (cs.now != NOW) s += " now=" + time_string(mint::T_GEN, cs.now);
+    s += " chain=[";
     for (size_t i = 0; i < cs.chain.size(); i++) s += (i ? " " : "") + describe_node(cs.n[(size_t) cs.chain[i]]);
     s += "] trust=[";
     for (size_t i = 0; i < cs.anchors.size(); i++) s += (i ? " " : "") + describe_node(cs.n[(size_t) cs.anchors[i]]);
@@ -927,7 +1102,8 @@ static inline std::string describe(const Case &cs)
         s += " crls=[";
         for (auto &r : cs.crls)
         {
-            s += vf::fmt("{by=%s%s next%+lldd lists:", mint::kind_name(kkind(r.signKey)), r.sigBad ? " FORGED" : "", (long long) (r.next / DAY));
+            s += vf::fmt("{by=%s%s next%+lldd%s%s lists:", mint::kind_name(kkind(r.signKey)), r.sigBad ? " FORGED" : "", (long long) (r.next / DAY),
+                         r.nextEnc ? (r.nextEnc == mint::T_UTC ? " UTC:" : " GEN:") : "", r.nextStr.c_str());
             for (int x : r.revokedNodes) s += vf::fmt("#%d ", x);
             s += vf::fmt("mxauth=%d}", r.mxAuthenticated ? 1 : 0);
         }
